@@ -1902,7 +1902,19 @@ fn oracle_c10(plan: &ResolvePlan, obs: &Observations) -> RunResult {
         // (decoy aliases from a byzantine upstream change what the chain is:
         // then only the shape is judged)
         let byzantine = !plan.knobs.upstream_fault_kinds.is_empty();
-        if !cyclic && !byzantine && ref_chain.len() <= whole_up_to() && got_links != ref_chain && !acceptable_cut {
+        // a cached owner with two aliases (one re-pointed): which of them a lookup
+        // follows is not specified, so only the shape is judged from there on
+        let ambiguous = ref_chain.iter().any(|(o, _)| {
+            plan.cache_preload
+                .iter()
+                .filter(|r| r.rtype() == "CNAME" && universe::names_equal(&r.owner, o))
+                .count()
+                > 1
+        });
+        if ambiguous {
+            bump(&mut res.stats, "probe.chain_through_a_cached_owner_with_two_aliases");
+        }
+        if !cyclic && !byzantine && !ambiguous && ref_chain.len() <= whole_up_to() && got_links != ref_chain && !acceptable_cut {
             res.violations.push(Violation::new("c10.chain_not_whole").detail(json!({
                 "q": qfacts(q), "reference_chain": ref_chain, "got": got_links,
                 "exchanges": exchange_summary(obs, q)
